@@ -127,8 +127,23 @@ func c19Transparent(c *Check, P, name string, m *MW) {
 				hOK, _ := NilEdges(I, hErr)
 				var listed []Edge
 				for _, t := range Tests(I) {
-					ex, ok := t.X.(*ssa.Extract)
-					if t.Op != token.ILLEGAL || !ok || ex.Index != 1 {
+					if t.Op != token.ILLEGAL {
+						continue
+					}
+					// the tested flag: the lookup's `ok`, possibly handed back by a helper that answers false on its other paths
+					var ex *ssa.Extract
+					nOther := 0
+					for _, o := range Origins(t.X) {
+						if cst, isC := o.(*ssa.Const); isC && cst.Value != nil && cst.Value.String() == "false" {
+							continue
+						}
+						if e2, isE := o.(*ssa.Extract); isE && e2.Index == 1 && ex == nil {
+							ex = e2
+							continue
+						}
+						nOther++
+					}
+					if ex == nil || nOther > 0 {
 						continue
 					}
 					lk, ok := ex.Tuple.(*ssa.Lookup)
